@@ -81,12 +81,22 @@ def histories(fmt, data, rng, ctx):
         obj, fobj = F.load(fmt, data, "x" + fmt.exts[0])
     except Exception:
         return
+    from mutagen import MutagenError
     for i, n in enumerate(sizes):
         text = ("t%d" % i) * (n // 2)
         F.put(fmt, obj, i, text)
-        F.save(obj, fobj)
+        try:
+            F.save(obj, fobj)
+        except MutagenError:
+            # damaged samples (truncated Theora files) cannot always be re-paged: no new state to detect
+            ctx.hist["history:save-raised-MutagenError"] += 1
+            return
         yield "set%d+save" % n, fobj.getvalue()
-    F.delete(obj, fobj)
+    try:
+        F.delete(obj, fobj)
+    except MutagenError:
+        ctx.hist["history:delete-raised-MutagenError"] += 1
+        return
     yield "delete", fobj.getvalue()
     try:
         obj, fobj2 = F.load(fmt, fobj.getvalue(), "x" + fmt.exts[0])
